@@ -2,6 +2,7 @@
 from .inv_base import InvProp
 from ..prng import Rng
 from .. import geninv as GI
+from .. import geninv2 as GI2
 from .. import genv as G
 from .. import core
 
@@ -52,10 +53,31 @@ class C14(InvProp):
             "location maps for nodes and classes, collision error + name + both files, per-node renders. Non-trivial = >=3 "
             "yaml files at >=2 directory levels; distinct by input hash.")
 
+    def judge(self, req, impl, reply):
+        if req.get("fam") == "linked_inventory" and isinstance(impl, dict):
+            # which path the uri spells for an inventory behind a symlink is not C14's subject (it is the textual one)
+            import copy
+            impl, reply = copy.deepcopy(impl), copy.deepcopy(reply)
+            for side in (impl, (reply or {}).get("model") or {}):
+                for v in (side.get("nodes") or {}).values():
+                    if isinstance(v, dict) and "ok" in v and "meta" in v["ok"]:
+                        v["ok"]["meta"]["uri"] = "<masked>"
+        return super().judge(req, impl, reply)
+
     def corpus(self):
         return [dict(c) for c in CLAUSES] + super().corpus()
 
     def cases(self, tier, seed):
+        for j in range(30 if tier == 'quick' else 600):
+            yield GI2.linked_inventory(Rng(seed, 'C14:linked', j))
+        for j in range(16 if tier == 'quick' else 300):
+            rr = Rng(seed, 'C14:special', j)
+            cc = GI.gen_inventory(rr, n_classes=rr.range(1, 4), n_nodes=rr.range(1, 3), nested=True, node_dirs=True, compose=rr.chance(1, 2))
+            if GI2.special_files(rr, cc):
+                yield cc
+        for j in range(8 if tier == 'quick' else 100):
+            rr = Rng(seed, 'C14:scale', j)
+            yield GI2.scale_inventory(rr, tier, kind=rr.choice(['long_names', 'deep_dirs']))
         N = 300 if tier == "quick" else 8000
         for i in range(N):
             r = Rng(seed, "C14", i)
